@@ -18,7 +18,10 @@ CONSTANTS VerifyOnly,   \* node disconnects after chain verification
 \* inbound message classes
 HeaderMsgs == {"hdrBSV", "hdrBCH", "hdrUnknown", "hdrEmpty", "hdrBSVSecond", "hdrGood", "hdrBad", "hdrTxCount"}
 Msgs == {"version", "verack", "ping", "pongOK", "pongBad", "protoconf", "reject", "addr", "getaddr",
-         "inv", "invBlock", "tx", "block", "extTx", "extBlock", "extOther", "other"} \cup HeaderMsgs
+         "inv", "invBlock", "tx", "block", "blockWanted", "reqblock", "extTx", "extBlock", "extOther", "other"}
+        \cup HeaderMsgs
+\* "reqblock" is not a message: it is the node manager calling RequestBlock on the (ready) node, after which
+\* the block handler is installed and "blockWanted" is the requested block.
 
 VARIABLES q,             \* handshake queue (sequence of "version"/"verack")
           hs,            \* handshake goroutine: [vrcv, vasent, varcv, done]
@@ -27,15 +30,16 @@ VARIABLES q,             \* handshake queue (sequence of "version"/"verack")
           deaf,          \* read loop blocked for ever inside a handler
           desync,        \* stream position not at a message boundary
           protoconfs,
+          breq,          \* a block request is outstanding on this node
           nmsgs,
           out,           \* commands sent by the last step (bag as sequence, sorted by the harness)
           sinks,         \* sink calls made by the last step
           lastIn         \* message handled by the last step ("" for goroutine steps)
-vars == <<q, hs, hsComplete, ready, verified, closed, deaf, desync, protoconfs, nmsgs, out, sinks, lastIn>>
+vars == <<q, hs, hsComplete, ready, verified, closed, deaf, desync, protoconfs, breq, nmsgs, out, sinks, lastIn>>
 
 Init == /\ q = <<>> /\ hs = [vrcv |-> FALSE, vasent |-> FALSE, varcv |-> FALSE, done |-> FALSE]
         /\ hsComplete = FALSE /\ ready = FALSE /\ verified = FALSE /\ closed = FALSE
-        /\ deaf = FALSE /\ desync = FALSE /\ protoconfs = 0 /\ nmsgs = 0
+        /\ deaf = FALSE /\ desync = FALSE /\ protoconfs = 0 /\ breq = FALSE /\ nmsgs = 0
         /\ out = {"version", "ping"} /\ sinks = {} /\ lastIn = ""
 
 Alive == ~closed /\ ~deaf /\ ~desync
@@ -53,6 +57,8 @@ Accept == /\ ready' = ~VerifyOnly /\ verified' = TRUE
 \* ---- read loop: handle one inbound message m
 Recv(m) ==
   /\ Alive /\ nmsgs < MaxMsgs /\ nmsgs' = nmsgs + 1 /\ lastIn' = m
+  /\ (m = "reqblock" => ready /\ ~breq)
+  /\ breq' = (IF m = "reqblock" THEN TRUE ELSE IF m = "blockWanted" /\ ready THEN FALSE ELSE breq)
   /\ CASE m \in {"version", "verack"} ->
             \* handed to the handshake goroutine; once that has finished nobody reads the queue: the
             \* message is dropped (non-blocking hand-over)
@@ -91,6 +97,10 @@ Recv(m) ==
                        /\ Same(<<q, ready, verified, closed, deaf, desync, protoconfs>>)
        [] m \in {"tx", "extTx"} -> /\ sinks' = IF ready /\ HasTxMgr THEN {"AddTx"} ELSE {}
                                    /\ out' = {} /\ Same(<<q, ready, verified, closed, deaf, desync, protoconfs>>)
+       [] m = "reqblock" -> out' = {"getdata"} /\ sinks' = {} /\ Same(<<q, ready, verified, closed, deaf, desync, protoconfs>>)
+       [] m = "blockWanted" -> \* the requested block reaches the block handler; any other block is only consumed
+                 /\ sinks' = IF ready /\ breq THEN {"BlockHandler"} ELSE {}
+                 /\ out' = {} /\ Same(<<q, ready, verified, closed, deaf, desync, protoconfs>>)
        [] OTHER -> \* reject, invBlock, unrequested block, extended block / other, any other command:
                    \* consumed to the declared length, nothing else happens
                    Quiet /\ Same(<<q, ready, verified, closed, deaf, desync, protoconfs>>)
@@ -108,7 +118,7 @@ Hs == /\ ~hs.done /\ ~closed /\ Len(q) > 0 /\ lastIn' = ""
             /\ out' = (IF m = "version" /\ ~hs.vasent THEN {"verack"} ELSE {})
                       \cup (IF fin THEN {"protoconf", "getheadersVerify"} ELSE {})
       /\ sinks' = {}
-      /\ Same(<<ready, verified, closed, deaf, desync, protoconfs, nmsgs>>)
+      /\ Same(<<ready, verified, closed, deaf, desync, protoconfs, breq, nmsgs>>)
 
 Next == (\E m \in Msgs : Recv(m)) \/ Hs
 Spec == Init /\ [][Next]_vars
